@@ -42,10 +42,20 @@ var ltRoles = map[string]model.RoleType{"s": model.RoleTypeServer, "c": model.Ro
 var ltFns = map[string]model.FunctionType{"limit": fnLimit, "limitdesc": fnLimitDesc, "meas": fnMeas, "measdesc": model.FunctionTypeMeasurementDescriptionListData,
 	"ecdesc": model.FunctionTypeElectricalConnectionDescriptionListData}
 
+// ltAddr: "e1b" is a second entity object with the address of "e1" (an entity that is replaced by a new object)
+func ltAddr(k string) []uint {
+	if k == "e1b" {
+		return ucEnts["e1"]
+	}
+	return ucEnts[k]
+}
+
+var ltEntKeys = []string{"e1", "e11", "e1b", "e2"}
+
 func newLTWorld() *ltWorld {
 	l := &ltWorld{w: world.New(false), ents: map[string]*spine.EntityLocal{}, m: map[string]*ltEnt{}}
-	for _, k := range []string{"e1", "e2", "e11"} {
-		l.ents[k] = spine.NewEntityLocal(l.w.L, model.EntityTypeTypeCEM, spine.NewAddressEntityType(ucEnts[k]), 0)
+	for _, k := range ltEntKeys {
+		l.ents[k] = spine.NewEntityLocal(l.w.L, model.EntityTypeTypeCEM, spine.NewAddressEntityType(ltAddr(k)), 0)
 		l.m[k] = &ltEnt{next: 1}
 	}
 	a := l.w.ConnectAndAnnounce("A", "dA", []world.EntSpec{clientEntity([]uint{1})})
@@ -79,7 +89,7 @@ func (l *ltWorld) refFeatures(e string) []string {
 			fns = append(fns, string(ltFns[k])+"="+v)
 		}
 		sort.Strings(fns)
-		out = append(out, fmt.Sprintf("%v/%d %s %s %q %v", ucEnts[e], f.num, ltTypes[f.typ], ltRoles[f.role], f.desc, fns))
+		out = append(out, fmt.Sprintf("%v/%d %s %s %q %v", ltAddr(e), f.num, ltTypes[f.typ], ltRoles[f.role], f.desc, fns))
 	}
 	sort.Strings(out)
 	return out
@@ -220,6 +230,7 @@ func (l *ltWorld) apply(op string, judge bool) (viol []string, digest string, ef
 	ent, me := l.ents[e], l.m[e]
 	mark := l.w.Mark()
 	var wantNotify string // "added" | "removed" | ""
+	staleRemoval := false
 	switch f[0] {
 	case "addent":
 		l.w.L.AddEntity(ent)
@@ -231,6 +242,11 @@ func (l *ltWorld) apply(op string, judge bool) (viol []string, digest string, ef
 		me.attached = false
 		wantNotify = "removed"
 		effect = true
+	case "rmstale":
+		// a late / duplicate RemoveEntity with the handle of an entity that is not attached (any more), possibly while
+		// another object is attached under the same address. What it announces is left open; the tree must stay what it is.
+		l.w.L.RemoveEntity(ent)
+		staleRemoval = true
 	case "feat":
 		t, r := f[2], f[3]
 		got := ent.GetOrAddFeature(ltTypes[t], ltRoles[r])
@@ -298,6 +314,9 @@ func (l *ltWorld) apply(op string, judge bool) (viol []string, digest string, ef
 			viol = append(viol, "a peer that is not subscribed to node management was notified | "+o.String())
 			continue
 		}
+		if staleRemoval {
+			continue
+		}
 		if o.Class != "notify" || o.Cmd.NodeManagementDetailedDiscoveryData == nil {
 			viol = append(viol, "unexpected datagram | "+o.String())
 			continue
@@ -306,7 +325,7 @@ func (l *ltWorld) apply(op string, judge bool) (viol []string, digest string, ef
 		dd := o.Cmd.NodeManagementDetailedDiscoveryData
 		if o.Filter != "partial" || len(dd.EntityInformation) != 1 || dd.EntityInformation[0].Description == nil ||
 			dd.EntityInformation[0].Description.LastStateChange == nil || string(*dd.EntityInformation[0].Description.LastStateChange) != wantNotify ||
-			fmt.Sprint(dd.EntityInformation[0].Description.EntityAddress.Entity) != fmt.Sprint(ucEnts[e]) {
+			fmt.Sprint(dd.EntityInformation[0].Description.EntityAddress.Entity) != fmt.Sprint(ltAddr(e)) {
 			viol = append(viol, fmt.Sprintf("the notification does not describe exactly this entity as %s | op=%s %s", wantNotify, op, o))
 			continue
 		}
@@ -327,7 +346,7 @@ func (l *ltWorld) apply(op string, judge bool) (viol []string, digest string, ef
 	if wantNotify != "" {
 		wantN = 1
 	}
-	if nA != wantN {
+	if nA != wantN && !staleRemoval {
 		viol = append(viol, fmt.Sprintf("a node-management subscriber received %d notifications, expected %d | op=%s", nA, wantN, op))
 	}
 	// the announcement read by a subscribed and by an unsubscribed peer
@@ -335,9 +354,9 @@ func (l *ltWorld) apply(op string, judge bool) (viol []string, digest string, ef
 		ents, feats, v := l.readTree(p)
 		viol = append(viol, v...)
 		var wantE, wantF []string
-		for _, k := range []string{"e1", "e11", "e2"} {
+		for _, k := range ltEntKeys {
 			if l.m[k].attached {
-				wantE = append(wantE, fmt.Sprint(ucEnts[k])+" "+string(model.EntityTypeTypeCEM))
+				wantE = append(wantE, fmt.Sprint(ltAddr(k))+" "+string(model.EntityTypeTypeCEM))
 				wantF = append(wantF, l.refFeatures(k)...)
 			}
 		}
@@ -348,6 +367,12 @@ func (l *ltWorld) apply(op string, judge bool) (viol []string, digest string, ef
 		}
 		if strings.Join(feats, ";") != strings.Join(wantF, ";") {
 			viol = append(viol, fmt.Sprintf("the discovery reply lists other features or operations than the current ones | op=%s peer=%s\n want=%v\n got=%v", op, p, wantF, feats))
+		}
+	}
+	// every announced entity address resolves to that entity
+	for _, k := range ltEntKeys {
+		if l.m[k].attached && l.w.L.Entity(spine.NewAddressEntityType(ltAddr(k))) != api.EntityLocalInterface(l.ents[k]) {
+			viol = append(viol, fmt.Sprintf("the address of an attached entity does not resolve to that entity | entity=%s op=%s", k, op))
 		}
 	}
 	// feature numbers never repeat within an entity
@@ -366,7 +391,7 @@ func (l *ltWorld) apply(op string, judge bool) (viol []string, digest string, ef
 
 func (l *ltWorld) key() string {
 	var parts []string
-	for _, k := range []string{"e1", "e11", "e2"} {
+	for _, k := range ltEntKeys {
 		var fs []string
 		for _, ft := range l.ents[k].Features() {
 			var fns []string
@@ -381,7 +406,7 @@ func (l *ltWorld) key() string {
 			fs = append(fs, fmt.Sprintf("%d:%s:%s:%q:%v", uint(*ft.Address().Feature), ft.Type(), ft.Role(), d, fns))
 		}
 		sort.Strings(fs)
-		att := l.w.L.Entity(spine.NewAddressEntityType(ucEnts[k])) != nil
+		att := l.w.L.Entity(spine.NewAddressEntityType(ltAddr(k))) == api.EntityLocalInterface(l.ents[k])
 		parts = append(parts, fmt.Sprintf("%s(att=%v next=%d)%v", k, att, l.m[k].next, fs))
 	}
 	return strings.Join(parts, " ")
@@ -444,7 +469,63 @@ func c07Drivers(thorough bool) []*engine.HDriver {
 			}
 			st.Key = l.key()
 			return st
-		}}}
+		}}, c07ReplacedDriver()}
+}
+
+// c07ReplacedDriver: an entity is given up and a NEW object is attached under the same address (a vehicle is unplugged
+// and another one plugged in); the application may still hold the old handle and remove it once more.
+func c07ReplacedDriver() *engine.HDriver {
+	alpha := []string{"addent:e1", "rment:e1", "addent:e1b", "rment:e1b", "rmstale:e1", "rmstale:e1b",
+		"feat:e1:lc:s", "feat:e1b:lc:s", "feat:e1b:ms:s", "fn:e1b:lc:s:limit:rw", "addent:e2", "rment:e2"}
+	return &engine.HDriver{Name: "replaced-entity", Alphabet: alpha,
+		Ops: func(hist []string) []string {
+			att := map[string]bool{}
+			for _, h := range hist {
+				f := strings.Split(h, ":")
+				if f[0] == "addent" {
+					att[f[1]] = true
+				}
+				if f[0] == "rment" {
+					att[f[1]] = false
+				}
+			}
+			other := map[string]string{"e1": "e1b", "e1b": "e1"}
+			var out []string
+			for _, a := range alpha {
+				f := strings.Split(a, ":")
+				switch f[0] {
+				case "addent":
+					// two objects attached under one address at the same time are left open by the statement
+					if att[f[1]] || (other[f[1]] != "" && att[other[f[1]]]) {
+						continue
+					}
+				case "rment":
+					if !att[f[1]] {
+						continue
+					}
+				case "rmstale":
+					// (also with the handle of an entity that never was attached: what is offered must depend on the state only)
+					if att[f[1]] {
+						continue
+					}
+				}
+				out = append(out, a)
+			}
+			return out
+		},
+		Step: func(hist []string, op string) engine.HStep {
+			l := newLTWorld()
+			rt.WaitIdle()
+			for _, h := range hist {
+				l.apply(h, false)
+			}
+			var st engine.HStep
+			if op != "" {
+				st.Violations, st.Digest, st.Effect = l.apply(op, true)
+			}
+			st.Key = l.key()
+			return st
+		}}
 }
 
 func c07Scenarios() []*engine.SScenario {
@@ -660,6 +741,9 @@ func init() {
 				depth := 3
 				if c.Thorough {
 					depth = 5
+				}
+				if d.Name == "replaced-entity" {
+					depth += 2
 				}
 				st := engine.RunHistories(c, d, depth, rep)
 				engine.AddHCoverage(rep, d.Name, st, len(d.Alphabet))
